@@ -44,7 +44,9 @@ CHECK = Check(
     ),
     assumptions=[
         "P5: uuids non-null and unique per side and camera; one label family per call (the dispatch looks at the first estimate)",
-        "both sides carry target labels only (the manager filters estimates and GTs by target label before matching)",
+        "both sides carry target labels only (the manager filters estimates and GTs by target label before matching), except "
+        "that estimates may be unknown-labelled when unknown is not a target (the filter's documented relaxation): such an "
+        "estimate paired with a target-labelled ground truth counts as a reported, wrong result of that ground truth's label",
         "no false_positive / traffic_light (non-classification) labels",
         "the fate of unpaired estimates (GT-less result or dropped) is not asserted",
         "undefined scores (zero denominator; F1 when precision+recall=0 or one of them undefined) are accepted as returned",
@@ -319,6 +321,12 @@ def _counts(targets, E, G, rows):
     out = {t: [0, 0, 0] for t in targets}
     for i, j in rows:
         lab = E[i][2]
+        if lab not in out:
+            # an estimate whose label is not a target (unknown-labelled) paired with a target-labelled ground truth is a
+            # reported, wrong result for that ground truth's label; without a ground truth it belongs to no label
+            if j is not None and G[j][2] in out:
+                out[G[j][2]][0] += 1
+            continue
         out[lab][0] += 1
         if j is not None and G[j][2] == lab:
             out[lab][1] += 1
@@ -428,8 +436,10 @@ def small_instances(ctx, d):
 
 
 @st.composite
-def _frame(draw, labels, cams, uuids, max_n):
-    """GTs on distinct (camera, uuid) slots; estimates built relative to GTs; both shuffled."""
+def _frame(draw, labels, cams, uuids, max_n, stray=None):
+    """GTs on distinct (camera, uuid) slots; estimates built relative to GTs; both shuffled.
+    `stray`: a label outside the target list that estimates may still carry (`unknown`: the manager's filter lets
+    unknown-labelled estimates through when unknown is not a target)."""
     slots = [(c, u) for c in cams for u in uuids]
     n_gt = draw(GEN.counts(0, min(max_n, len(slots))))
     gslots = draw(st.permutations(slots))[:n_gt]
@@ -458,7 +468,7 @@ def _frame(draw, labels, cams, uuids, max_n):
         if act == "drop":
             continue
         if act in ("flip", "flip_move"):
-            l = other(labels, l)
+            l = stray if stray is not None and draw(st.integers(0, 3)) == 0 else other(labels, l)
         if act in ("move", "flip_move"):
             u = other(uuids, u)
         if act == "camera":
@@ -496,7 +506,8 @@ def _case(draw, frames):
     nu = draw(st.sampled_from([1, 2, 3, 3, 4, 6, 8]))
     uuids = [f"u{k}" for k in range(1, nu + 1)]
     nf = draw(st.integers(1, frames))
-    fs = [draw(_frame(labels, cams, uuids, 12)) for _ in range(nf)]
+    stray = "unknown" if "unknown" not in targets and draw(st.booleans()) else None
+    fs = [draw(_frame(labels, cams, uuids, 12, stray)) for _ in range(nf)]
     return {"fam": fam, "uf": uf, "targets": targets, "frames": fs}
 
 
